@@ -2337,10 +2337,13 @@ impl Timestamp {
     ) -> Result<Timestamp, Error> {
         let (second, nanosecond) =
             rangeint::uncomposite!(its, c => (c.second, c.nanosecond));
-        Ok(Timestamp {
-            second: second.try_to_rint("unix-seconds")?,
-            nanosecond: nanosecond.to_rint(),
-        })
+        // This goes through `new_ranged` because a second within range is
+        // not sufficient: the minimum second with a negative nanosecond is
+        // less than `Timestamp::MIN`.
+        Timestamp::new_ranged(
+            second.try_to_rint("unix-seconds")?,
+            nanosecond.to_rint(),
+        )
     }
 
     #[inline]
